@@ -18,7 +18,7 @@ class SpecError(Exception):
 
 
 LISTKEYS = {'uses', 'replace', 'flags', 'records', 'properties', 'enforce_extra', 'byref_types', 'identity_methods', 'token_types', 'zero_init_types', 'cellset_types', 'globals', 'enum_types', 'inline', 'allow_calls', 'partial_structs', 'expose', 'keep_params', 'base_uses'}
-MAPKEYS = {'typemap', 'callmap', 'opmap', 'enums', 'membermap', 'subst', 'members', 'call_effects', 'abs_calls', 'instances', 'convmap'}
+MAPKEYS = {'typemap', 'callmap', 'opmap', 'enums', 'membermap', 'subst', 'members', 'call_effects', 'abs_calls', 'instances', 'convmap', 'sz_cond_calls'}
 
 
 def parse_spec(path):
